@@ -421,6 +421,7 @@ func (p *PIDZero) startRunnable(r Runnable) error {
 	if stateable, ok := r.(Stateable); ok {
 		initialState := stateable.GetState()
 		p.stateMap.Store(r, initialState)
+		p.broadcastState()
 		p.logger.Debug("Initial state", "runnable", r, "state", initialState)
 	}
 
